@@ -35,6 +35,7 @@ class FnInfo:
         self.calls = []             # (gen_line_of_call_token, byte, callee, ordinal)
         self.is_fn = True
         self.traitpost = False
+        self.attr = None
 
 
 class Generated:
@@ -374,6 +375,8 @@ def generate(unit, template_path, repo=None, canary=False):
                     structural = True
                 if 'traitpost' in oflags:
                     fi.traitpost = True
+                if 'attr' in okv:
+                    fi.attr = okv['attr'][-1]
                 if 'noghost' in oflags:
                     ghost = None
                 if 'heapmethods' in okv:
@@ -605,6 +608,8 @@ def generate(unit, template_path, repo=None, canary=False):
                     inserts.append((lay['body_open'] + 1, '\n' + ptxt.rstrip() + '\n', ('contract', fi.name, 'proof')))
                 else:
                     raise AnchorError(f'template line {sd.lineno}: proof needs before=/after=/at=start')
+        if fi.attr:
+            inserts.append((0, fi.attr + ' ', None))
         # ---- emit
         inserts.sort(key=lambda x: x[0])
         pos = 0
